@@ -54,3 +54,9 @@ Example ex_C09 :
   map (fun n => option_map Print.print (assoc n (e_rules (load_rules cf init_state fs false)))) [s "a"; s "b"; s "c"; s "z"]
   = [Some (s "role:B"); Some (s "role:main"); Some (s "role:d"); None].
 Proof. vm_compute. reflexivity. Qed.
+
+(* the directory walk has the shape the model follows (top level, plain sort, dot-files skipped):
+   read off policy.py on this run *)
+Theorem C09_walk_shape : walk_shape_known = true.
+Proof. reflexivity. Qed.
+Print Assumptions C09_walk_shape.
